@@ -278,8 +278,41 @@ impl C15 {
             8 => {
                 b.help = src.pick(HELPS).to_string();
             }
+            9 if b.vars.is_empty() && !b.consts.is_empty() && src.chance(128) => {
+                // help / label-name boundary shift in the dimension signature: the last character of the help moves to the front of the
+                // first label name (in name order), or the first character of that name to the end of the help
+                let i = (0..b.consts.len()).min_by_key(|&i| b.consts[i].0.clone()).unwrap();
+                let name = b.consts[i].0.clone();
+                let valid = |n: &str| !n.is_empty() && n.chars().all(|c| c.is_ascii_alphanumeric() || c == '_') && !n.chars().next().unwrap().is_ascii_digit();
+                let cand: Option<(String, String)> = if src.chance(128) {
+                    let mut h: Vec<char> = b.help.chars().collect();
+                    if h.len() >= 2 {
+                        let c = h.pop().unwrap();
+                        Some((h.into_iter().collect(), format!("{}{}", c, name)))
+                    } else {
+                        None
+                    }
+                } else {
+                    let mut n: Vec<char> = name.chars().collect();
+                    if n.len() >= 2 {
+                        let c = n.remove(0);
+                        Some((format!("{}{}", b.help, c), n.into_iter().collect()))
+                    } else {
+                        None
+                    }
+                };
+                if let Some((h2, n2)) = cand {
+                    // the moved name must stay the first one in name order and clash with no other
+                    let others_ok = b.consts.iter().enumerate().all(|(j, c)| j == i || (c.0 != n2 && n2 < c.0));
+                    if valid(&n2) && others_ok {
+                        b.help = h2;
+                        b.consts[i].0 = n2;
+                        rep.class("help/label-name-boundary-shift");
+                    }
+                }
+            }
             9 => {
-                // help / label-name boundary shift in the dimension signature: "h"+"h.." vs "hh"
+                // a label renamed
                 if !b.consts.is_empty() {
                     let i = src.below(b.consts.len());
                     let used: Vec<String> = b.consts.iter().map(|c| c.0.clone()).chain(b.vars.iter().cloned()).collect();
@@ -341,7 +374,8 @@ impl C15 {
         let mut long_component = false;
         if src.chance(24) {
             b = a.clone();
-            let len = 24 + src.below(60);
+            // (a quarter of the long strings are 88-267 bytes: keys around 128 and 256 bytes; fixed buffers have such sizes)
+            let len = if src.chance(64) { 88 + src.below(180) } else { 24 + src.below(60) };
             let off = src.below(37);
             const ALPHA: &[u8] = b"abcdefghijklmnopqrstuvwxyz0123456789_";
             let base: Vec<u8> = (0..len).map(|i| ALPHA[(off + i) % ALPHA.len()]).collect();
@@ -353,7 +387,8 @@ impl C15 {
                 }
                 2 => {
                     let mut v = base.clone();
-                    let p = src.below(len);
+                    // (a third of the changed bytes are among the last four: a key that is cut short loses exactly those)
+                    let p = if src.chance(85) { len - 1 - src.below(4) } else { src.below(len) };
                     v[p] = if v[p] == b'q' { b'r' } else { b'q' };
                     v
                 }
